@@ -135,7 +135,7 @@ pub fn run(args: &Args) -> Report {
                     for _ in 0..c0 {
                         t.random_felt_to_prover();
                     }
-                    vh::start(u64::MAX);
+                    vh::start(4 * n + 64);
                     let out = vcommon::guard::catch(|| {
                         let q = generate_queries(&mut t, Felt::from(n), Felt::from(1u64 << e));
                         (q, *t.digest(), *t.counter())
@@ -143,7 +143,14 @@ pub fn run(args: &Args) -> Report {
                     let ev = vh::take();
                     let d = json!({"digest": vcommon::hex(&d0), "counter": c0, "n_queries": n, "log_domain": e});
                     rep.case(&d.to_string(), true);
-                    let Ok((q, dig, ctr)) = out else { continue };
+                    let (q, dig, ctr) = match out {
+                        Ok(x) => x,
+                        Err(p) if p.is_budget() => {
+                            rep.violation("C08|trace|query-phase-challenge-count", &format!("the query phase drew more than 4 x n_queries + 64 challenges for n_queries = {n} on a domain of 2^{e} points"), d);
+                            continue;
+                        }
+                        Err(_) => continue,
+                    };
                     rep.inc("query_phase.runs");
                     if (q.len() as u64) < n {
                         rep.inc("query_phase.runs_with_repeated_samples");
